@@ -1313,7 +1313,9 @@ class Run:
                 raise Unsupported("f-string over abstract text without a text model")
             return h(self, raw)
         self.note("f-string rendering of symbolic values is abstracted to an unconstrained str and assumed not to raise")
-        return VStr(str, self.fresh("hv_fstr", z3.StringSort()))
+        out = VStr(str, self.fresh("hv_fstr", z3.StringSort()))
+        self.ghost.setdefault("fstrings", []).append((out, raw))
+        return out
 
     def e_Subscript(self, e, env):
         obj = self.eval(e.value, env)
